@@ -14,6 +14,7 @@ slots of a List).  With unique identities an old child's identity can then only 
 child sits.
 -/
 import Proofs.C08IdsStep
+import Proofs.C08Bfs
 namespace Flatland.C08.Proofs
 open Flatland.Tree Flatland.PyList Flatland.C08 Flatland.C08.Spec
 open Flatland.C10.Proofs (findKid_some findKid_none fieldFor_some hdr_parts hdr_eq_parts)
@@ -613,5 +614,413 @@ theorem seqStep_ko (n : Node) (hk : kok n = true) (hseq : IsSeq n.kind) (op : Se
       split
       · exact kor_exc _ _ _ _ _
       · exact kor_self _ _ _ _ _ _
+
+/-! ### mappings (children = stored items: one level suffices) -/
+
+def KO1 (B : Nat → Nat) (old ks : List Node) : Prop := ∀ k' ∈ ks, Orig1 B old k'
+
+theorem KO1.self (B : Nat → Nat) (old : List Node) : KO1 B old old := fun _ h => orig1_self B h
+
+theorem KO1.mono {B B' : Nat → Nat} (hB : ∀ a, B a ≤ B' a) {old ks : List Node} (h : KO1 B old ks) : KO1 B' old ks :=
+  fun x hx => (h x hx).mono hB
+
+theorem Orig1.old_mono {B : Nat → Nat} {old old' : List Node} (hs : ∀ x ∈ old, x ∈ old') {k' : Node}
+    (h : Orig1 B old k') : Orig1 B old' k' := by
+  rcases h with ⟨k, hk, hid, hc⟩ | h
+  · exact .inl ⟨k, hs k hk, hid, hc⟩
+  · exact .inr h
+
+theorem KO1.trans {B B' : Nat → Nat} {old mid new : List Node} (h1 : KO1 B old mid) (h2 : KO1 B' mid new) :
+    KO1 (fun a => B a + B' a) old new := by
+  intro k' hk'
+  rcases h2 k' hk' with ⟨k, hk, hid, hc⟩ | h
+  · rcases h1 k hk with ⟨k0, hk0, hid0, hc0⟩ | h0
+    · exact .inl ⟨k0, hk0, hid.trans hid0, fun a => by have := hc a; have := hc0 a; dsimp only; omega⟩
+    · refine .inr (fun a => ?_)
+      have := hc a; have := h0 a
+      rw [cnt_eq] at *
+      rw [hid]; dsimp only; omega
+  · exact .inr (fun a => by have := h a; dsimp only; omega)
+
+theorem ko1_of_mem {B : Nat → Nat} {old ks : List Node}
+    (h : ∀ x ∈ ks, x ∈ old ∨ Orig1 B old x) : KO1 B old ks := by
+  intro x hx
+  rcases h x hx with h1 | h1
+  · exact orig1_self B h1
+  · exact h1
+
+/-- an old child updated in place (same identity) -/
+theorem orig1_update {lo hi : Nat} {old args : List Node} {child new : Node} (hc : child ∈ old)
+    (hid : new.id = child.id) (h : LS lo [child] hi [new]) :
+    Orig1 (fun a => cntL a args + ind lo hi a) old new :=
+  .inl ⟨child, hc, hid, fun a => by
+    have := h.hcnt a
+    simp only [cntL_singleton] at this
+    rw [cnt_eq, cnt_eq, hid] at this; dsimp only; omega⟩
+
+def KOr1 (n : Node) (args : List Node) (next : Nat) (r : StepR) : Prop :=
+  KO1 (fun a => cntL a args + ind next r.next a) n.kids r.node.kids
+
+theorem kor1_exc (n : Node) (args : List Node) (next n1 : Nat) (e : Exc) : KOr1 n args next (excOut n n1 e) :=
+  KO1.self _ _
+theorem kor1_self (n : Node) (args : List Node) (next n1 : Nat) (out : Out) (d : List Node) :
+    KOr1 n args next ⟨n, n1, out, d⟩ := KO1.self _ _
+
+theorem mapSetItem_ko1 (n : Node) (hk : kok n = true) (key : Str) (a : Arg)
+    (ha : kokL (argElems a) = true) (next : Nat) : KOr1 n (argElems a) next (mapSetItem n key a next) := by
+  have hkids : kokL n.kids = true := kokL_of_kok hk
+  have hs : swf n.sch = true := kok_swf hk
+  have hset : ∀ child, findKid n.kids key = some child →
+      KO1 (fun x => cntL x (argElems a) + ind next (setChild child a next).next x) n.kids
+        (replaceKid n.kids key (setChild child a next).node) := by
+    intro child hc
+    have hcm := findKid_some hc
+    have h1 := setChild_ls child a next ((kokL_iff _).mp hkids child hcm.1)
+    refine ko1_of_mem (fun x hx => ?_)
+    rcases Flatland.C10.Proofs.mem_replaceKid hx with h3 | h3
+    · exact .inl h3
+    · rw [h3]; exact .inr (orig1_update hcm.1 (id_of_hdr (Flatland.C10.Proofs.setChild_hdr child a next)) h1)
+  have hnew : ∀ (x : Node) (n1 : Nat), LS next (argElems a) n1 [x] →
+      KO1 (fun y => cntL y (argElems a) + ind next n1 y) n.kids (n.kids ++ [x]) := by
+    intro x n1 hx
+    refine ko1_of_mem (fun y hy => ?_)
+    rcases List.mem_append.mp hy with h3 | h3
+    · exact .inl h3
+    · exact .inr (.inr (fresh_bound hx y h3))
+  unfold mapSetItem
+  split
+  · dsimp only
+    split
+    · split
+      · exact kor1_exc _ _ _ _ _
+      · rename_i f hf
+        have hfm := fieldFor_some hf
+        have hsf : swf f = true := swf_subs hs f hfm.1
+        split
+        · rename_i e
+          have he : kok e = true := by simpa [argElems, kokL] using ha
+          split
+          · refine hnew _ _ ?_
+            exact (LS.refl next (kok_single.mpr he)).congr_new
+              (fun x => by rw [cntL_singleton, cntL_singleton, cnt_withKey, cnt_withParent])
+              (by simp [kokL, kok_withKey, kok_withParent])
+          · split
+            · refine hnew _ _ ?_
+              exact ((blank_ls f (some n.id) key next hsf).congr_new
+                  (fun x => by rw [cntL_singleton, cntL_singleton, cnt_withScalar])
+                  (by simp [kokL, kok_withScalar])).forget
+            · exact kor1_exc _ _ _ _ _
+        · rename_i r
+          split
+          · exact kor1_exc _ _ _ _ _
+          · rename_i el n1 hcon
+            exact hnew _ _ (construct_ls f r (some n.id) key next hsf el n1 hcon).forget
+    · rename_i child hc
+      have hcm := findKid_some hc
+      split
+      · exact kor1_exc _ _ _ _ _
+      · rename_i f e _
+        split
+        · refine ko1_of_mem (fun x hx => ?_)
+          rcases Flatland.C10.Proofs.mem_replaceKid hx with h3 | h3
+          · exact .inl h3
+          · rw [h3]
+            exact .inr (.inr (fun y => by simp [argElems, cnt_withKey, cnt_withParent, cntL_singleton]))
+        · split
+          · exact hset child hc
+          · exact hset child hc
+      · split
+        · exact hset child hc
+        · exact hset child hc
+  · split
+    · exact kor1_exc _ _ _ _ _
+    · rename_i child hc
+      dsimp only
+      split
+      · exact hset child hc
+      · exact hset child hc
+
+theorem mapUpdatePairs_ko1 (kvs : List (Str × Raw)) : ∀ (n : Node) (next : Nat), kok n = true → isMap n.kind = true →
+    KO1 (fun a => ind next (mapUpdatePairs n kvs next).next a) n.kids (mapUpdatePairs n kvs next).node.kids := by
+  induction kvs with
+  | nil => intro n next _ _; rw [mapUpdatePairs]; exact KO1.self _ _
+  | cons kv rest ih =>
+    intro n next hk hm
+    obtain ⟨k, v⟩ := kv
+    have hs := mapSetItem_ls n hk hm k (.plain v) rfl next
+    have h1 : KO1 (fun a => ind next (mapSetItem n k (.plain v) next).next a) n.kids (mapSetItem n k (.plain v) next).node.kids :=
+      (mapSetItem_ko1 n hk k (.plain v) rfl next).mono (fun a => by simp [argElems])
+    rw [mapUpdatePairs]
+    split
+    · exact h1
+    · have h2 := ih _ (mapSetItem n k (.plain v) next).next (kok_single.mp hs.1.hkok) (kok_congr_map hs.2 hm)
+      have hle2 := (mapUpdatePairs_ls rest _ (mapSetItem n k (.plain v) next).next (kok_single.mp hs.1.hkok) (kok_congr_map hs.2 hm)).1.hle
+      exact (h1.trans h2).mono (fun a => by have := ind_add a hs.1.hle hle2; omega)
+
+theorem mapUpdateArgs_ko1 (kvs : List (Str × Arg)) : ∀ (n : Node) (next : Nat), kok n = true → isMap n.kind = true →
+    kokL (kvs.flatMap (fun p => argElems p.2)) = true →
+    KO1 (fun a => cntL a (kvs.flatMap (fun p => argElems p.2)) + ind next (mapUpdateArgs n kvs next).next a) n.kids
+      (mapUpdateArgs n kvs next).node.kids := by
+  induction kvs with
+  | nil => intro n next _ _ _; rw [mapUpdateArgs]; exact KO1.self _ _
+  | cons kv rest ih =>
+    intro n next hk hm ha
+    obtain ⟨k, a⟩ := kv
+    rw [List.flatMap_cons, kokL_append] at ha
+    have hs := mapSetItem_ls n hk hm k a ha.1 next
+    have h1 := mapSetItem_ko1 n hk k a ha.1 next
+    rw [mapUpdateArgs, List.flatMap_cons]
+    split
+    · exact h1.mono (fun x => by simp only [cntL_append]; omega)
+    · have h2 := ih _ (mapSetItem n k a next).next (kok_single.mp hs.1.hkok) (kok_congr_map hs.2 hm) ha.2
+      have hle2 := (mapUpdateArgs_ls rest _ (mapSetItem n k a next).next (kok_single.mp hs.1.hkok) (kok_congr_map hs.2 hm) ha.2).1.hle
+      exact (h1.trans h2).mono (fun x => by
+        have := ind_add x hs.1.hle hle2; simp only [cntL_append]; omega)
+
+theorem setDefaultKids_ko1 : ∀ (kids : List Node) (next : Nat), kokL kids = true →
+    KO1 (fun a => ind next (setDefaultKids kids next).2.1 a) kids (setDefaultKids kids next).1
+  | [], next, _ => by rw [setDefaultKids]; intro x hx; cases hx
+  | k :: ks, next, h => by
+    rw [kokL, Bool.and_eq_true] at h
+    have hk := setDefault_ls k next h.1
+    have hO : Orig1 (fun a => cntL a [] + ind next (setDefault k next).next a) (k :: ks) (setDefault k next).node :=
+      orig1_update (by simp) (id_of_hdr (setDefault_hdr k next)) hk
+    rw [setDefaultKids]
+    dsimp only
+    split
+    · intro x hx
+      rcases List.mem_cons.mp hx with h1 | h1
+      · rw [h1]; exact hO.mono (fun a => by simp)
+      · exact orig1_self _ (by simp [h1])
+    · have ih := setDefaultKids_ko1 ks (setDefault k next).next h.2
+      have hle2 := (setDefaultKids_ls ks (setDefault k next).next h.2).hle
+      intro x hx
+      rcases List.mem_cons.mp hx with h1 | h1
+      · rw [h1]
+        exact hO.mono (fun a => by have := ind_mono a (Nat.le_refl next) hle2; simp only [cntL_nil]; omega)
+      · exact ((ih x h1).old_mono (fun y hy => by simp [hy])).mono
+          (fun a => ind_mono a hk.hle (Nat.le_refl _))
+
+theorem kids_fresh_of_ls_B {n r : Node} {lo hi : Nat} (args : List Node) (hid : r.id = (n.withKids []).id)
+    (h : LS lo [n.withKids []] hi [r]) : KO1 (fun a => cntL a args + ind lo hi a) n.kids r.kids :=
+  fun x hx => .inr (fun a => by
+    have := kids_fresh_of_ls' hid h a
+    have := cnt_le_cntL (a := a) hx; dsimp only; omega)
+
+theorem setNode_map_forget' (n : Node) (h : n.kind = .dict ∨ n.kind = .sparse) (raw : Raw) (pol : Option Policy) (next : Nat) :
+    ((setNode n raw pol next).node.kids = n.kids ∧ (setNode n raw pol next).next = next) ∨
+      setNode n raw pol next = setNode (n.withKids []) raw pol next := by
+  cases n with
+  | mk i s kids => exact setNode_map_forget i s kids h raw pol next
+
+theorem setDefault_map_forget' (n : Node) (h : n.kind = .dict ∨ n.kind = .sparse) (next : Nat) :
+    ((setDefault n next).node.kids = n.kids ∧ (setDefault n next).next = next) ∨
+      setDefault n next = setDefault (n.withKids []) next ∨
+      ((setDefault n next).node.kids = (setDefaultKids n.kids next).1 ∧
+        (setDefault n next).next = (setDefaultKids n.kids next).2.1) := by
+  cases n with
+  | mk i s kids => exact setDefault_map_forget i s kids h next
+
+theorem setNode_ko1 (n : Node) (hk : kok n = true) (hm : isMap n.kind = true) (args : List Node) (raw : Raw)
+    (pol : Option Policy) (next : Nat) :
+    KO1 (fun a => cntL a args + ind next (setNode n raw pol next).next a) n.kids (setNode n raw pol next).node.kids := by
+  rcases setNode_map_forget' n ((isMap_cases _).mp hm) raw pol next with h1 | h1
+  · rw [h1.1]; exact KO1.self _ _
+  · rw [h1]
+    exact kids_fresh_of_ls_B args (id_of_hdr (setNode_hdr _ raw pol next))
+      (setNode_ls raw (n.withKids []) pol next (kok_withKids_nil hk))
+
+theorem setDefault_ko1 (n : Node) (hk : kok n = true) (hm : isMap n.kind = true) (args : List Node) (next : Nat) :
+    KO1 (fun a => cntL a args + ind next (setDefault n next).next a) n.kids (setDefault n next).node.kids := by
+  rcases setDefault_map_forget' n ((isMap_cases _).mp hm) next with h1 | h1 | h1
+  · rw [h1.1]; exact KO1.self _ _
+  · rw [h1]
+    exact kids_fresh_of_ls_B args (id_of_hdr (setDefault_hdr _ next))
+      (setDefault_ls (n.withKids []) next (kok_withKids_nil hk))
+  · rw [h1.1, h1.2]
+    exact (setDefaultKids_ko1 n.kids next (kokL_of_kok hk)).mono (fun a => Nat.le_add_left _ _)
+
+/-- **origins, mappings, every call.** -/
+theorem mapStep_ko1 (n : Node) (hk : kok n = true) (hm : isMap n.kind = true) (op : MapOp)
+    (hop : kokL (placedMap op) = true) (next : Nat) : KOr1 n (placedMap op) next (mapStep n op next) := by
+  have hkids : kokL n.kids = true := kokL_of_kok hk
+  have hs : swf n.sch = true := kok_swf hk
+  have herase : ∀ (B : Nat → Nat) k, KO1 B n.kids (eraseKey n.kids k) :=
+    fun B k x hx => orig1_self B (List.mem_filter.mp hx).1
+  unfold mapStep
+  cases op with
+  | setitem k a => exact mapSetItem_ko1 n hk k a hop next
+  | delitem k =>
+    dsimp only
+    split
+    · split <;> exact kor1_exc _ _ _ _ _
+    · split
+      · split
+        · exact herase _ k
+        · split <;> exact kor1_exc _ _ _ _ _
+      · split
+        · exact kor1_exc _ _ _ _ _
+        · exact kor1_exc _ _ _ _ _
+        · split
+          · exact herase _ k
+          · exact kor1_exc _ _ _ _ _
+  | pop k =>
+    dsimp only
+    split
+    · exact kor1_exc _ _ _ _ _
+    · split
+      · exact kor1_exc _ _ _ _ _
+      · split
+        · exact kor1_exc _ _ _ _ _
+        · split
+          · exact herase _ k
+          · exact kor1_exc _ _ _ _ _
+  | popitem => dsimp only; split <;> exact kor1_exc _ _ _ _ _
+  | clear =>
+    dsimp only
+    split
+    · have hsub : swfL n.sch.subs = true := (swfL_iff _).mpr (swf_subs hs)
+      show KO1 _ n.kids (mapReset n next).1.kids
+      unfold mapReset
+      split
+      · exact fun x hx => .inr (fresh_bound ((blankFields_ls _ _ _ _ hsub).forget (l0 := placedMap .clear)) x hx)
+      · split
+        · exact fun x hx => .inr (fresh_bound ((blankFields_ls _ _ _ _ hsub).forget (l0 := placedMap .clear)) x hx)
+        · exact fun x hx => by cases hx
+    · exact kor1_exc _ _ _ _ _
+  | update pos kw =>
+    dsimp only
+    split
+    · exact (mapUpdatePairs_ko1 kw n next hk hm).mono (fun a => Nat.le_add_left _ _)
+    · split
+      · exact kor1_exc _ _ _ _ _
+      · exact kor1_exc _ _ _ _ _
+      · rename_i kvs _
+        have h1 := mapUpdatePairs_ko1 kvs n next hk hm
+        have l1 := mapUpdatePairs_ls kvs n next hk hm
+        split
+        · exact h1.mono (fun a => Nat.le_add_left _ _)
+        · have hk2 := kok_single.mp l1.1.hkok
+          have hm2 := kok_congr_map l1.2 hm
+          have h2 := mapUpdatePairs_ko1 kw _ (mapUpdatePairs n kvs next).next hk2 hm2
+          have l2 := mapUpdatePairs_ls kw _ (mapUpdatePairs n kvs next).next hk2 hm2
+          exact (h1.trans h2).mono (fun a => by have := ind_add a l1.1.hle l2.1.hle; omega)
+  | updateArgs kvs => exact mapUpdateArgs_ko1 kvs n next hk hm hop
+  | ior raw =>
+    dsimp only
+    split
+    · exact kor1_exc _ _ _ _ _
+    · exact kor1_exc _ _ _ _ _
+    · exact (mapUpdatePairs_ko1 _ n next hk hm).mono (fun a => Nat.le_add_left _ _)
+  | setdefault k d =>
+    dsimp only
+    split
+    · exact kor1_exc _ _ _ _ _
+    · split
+      · exact kor1_exc _ _ _ _ _
+      · split
+        · rename_i child hc
+          have hcm := findKid_some hc
+          split
+          · exact kor1_self _ _ _ _ _ _
+          · have h1 := setNode_ls d child none next ((kokL_iff _).mp hkids child hcm.1)
+            have hK : KO1 (fun a => cntL a (placedMap (.setdefault k d)) + ind next (setNode child d none next).next a) n.kids
+                (replaceKid n.kids k (setNode child d none next).node) := by
+              refine ko1_of_mem (fun x hx => ?_)
+              rcases Flatland.C10.Proofs.mem_replaceKid hx with h3 | h3
+              · exact .inl h3
+              · rw [h3]; exact .inr (orig1_update hcm.1 (id_of_hdr (setNode_hdr child d none next)) h1)
+            split
+            · exact hK
+            · exact hK
+        · split
+          · exact kor1_exc _ _ _ _ _
+          · rename_i f hf
+            have hfm := fieldFor_some hf
+            have hb := (blank_ls f none k next (swf_subs hs f hfm.1)).withParent_new (some n.id)
+            have hr := setNode_ls d ((blank f none k next).1.withParent (some n.id)) none (blank f none k next).2
+              (kok_single.mp hb.hkok)
+            have hK : KO1 (fun a => cntL a (placedMap (.setdefault k d)) +
+                  ind next (setNode ((blank f none k next).1.withParent (some n.id)) d none (blank f none k next).2).next a) n.kids
+                (n.kids ++ [(setNode ((blank f none k next).1.withParent (some n.id)) d none (blank f none k next).2).node]) := by
+              refine ko1_of_mem (fun y hy => ?_)
+              rcases List.mem_append.mp hy with h3 | h3
+              · exact .inl h3
+              · exact .inr (.inr (fresh_bound ((hb.trans hr).forget (l0 := placedMap (.setdefault k d))) y h3))
+            split
+            · exact hK
+            · exact hK
+  | get k => dsimp only; split <;> first | exact kor1_exc _ _ _ _ _ | exact kor1_self _ _ _ _ _ _
+  | set raw pol =>
+    dsimp only
+    split
+    · split <;> exact setNode_ko1 n hk hm _ _ _ _
+    · split <;> exact setNode_ko1 n hk hm _ _ _ _
+    · split <;> exact setNode_ko1 n hk hm _ _ _ _
+  | setDefault => dsimp only; split <;> exact setDefault_ko1 n hk hm _ _
+  | contains k => exact kor1_self _ _ _ _ _ _
+  | len => exact kor1_self _ _ _ _ _ _
+
+/-! ### the clause for one call on the container -/
+
+theorem mem_children_nodesL {n c : Node} (h : c ∈ children n) : c ∈ nodesL n.kids :=
+  (nodesL_children_sublist n).subset (mem_nodesL_of_mem h)
+
+theorem cntL_pos_of_child {n c : Node} (h : c ∈ children n) : 0 < cntL c.id n.kids := by
+  unfold cntL
+  exact List.count_pos_iff.mpr (List.mem_map.mpr ⟨c, mem_children_nodesL h, rfl⟩)
+
+theorem children_list {n : Node} (h : n.kind = .list) : children n = n.kids.flatMap Node.kids := by
+  unfold children; rw [h]
+theorem children_kids {n : Node} (h : n.kind = .array ∨ n.kind = .multi ∨ n.kind = .dict ∨ n.kind = .sparse) :
+    children n = n.kids := by
+  unfold children; rcases h with h | h | h | h <;> rw [h]
+
+theorem kind_of_hdr {r n : Node} (h : r.hdr = n.hdr) : r.kind = n.kind := by
+  unfold Node.kind; rw [sch_of_hdr h]
+
+/-- **removed ⇒ gone, at the container.**  A child of the container before the call whose
+    identity still occurs anywhere below the container afterwards is still a child of it. -/
+theorem nodeStep_removed (n : Node) (hk : kok n = true) (hnd : (ids n).Nodup) (op : Op) (next : Nat)
+    (hlt : ∀ a ∈ ids n, a < next) (hop : kokL (placedArgs op) = true)
+    (hA : ∀ a ∈ ids n, cntL a (placedArgs op) = 0) :
+    ∀ c ∈ children n, c.id ∈ ids (nodeStep n op next).node →
+      c.id ∈ (children (nodeStep n op next).node).map Node.id := by
+  intro c hc hin
+  have hhdr := (nodeStep_ls n hk op hop next).2
+  have hid := id_of_hdr hhdr
+  have hkind := kind_of_hdr hhdr
+  have hB : ∀ a ∈ ids n, cntL a (placedArgs op) + ind next (nodeStep n op next).next a = 0 := by
+    intro a ha
+    rw [hA a ha, ind_eq_zero_of_lt (hlt a ha)]
+  -- a call that leaves the element alone
+  have hsame : (nodeStep n op next).node = n → c.id ∈ (children (nodeStep n op next).node).map Node.id := by
+    intro h; rw [h]; exact List.mem_map.mpr ⟨c, hc, rfl⟩
+  cases op with
+  | seq o =>
+    have hko := fun hs => seqStep_ko n hk hs o hop next
+    unfold nodeStep at hin hkind hid hB hsame hko ⊢
+    cases hkd : n.kind <;> simp only [hkd] at hin hkind hid hB hsame hko ⊢ <;> try exact hsame rfl
+    · -- list
+      rw [children_list hkd] at hc
+      rw [children_list hkind]
+      obtain ⟨σ, hσ, hcσ⟩ := List.mem_flatMap.mp hc
+      exact removed_list hnd hB hid (fun k' hk' => (hko (.inl rfl) k' hk').2) σ hσ c hcσ hin
+    · rw [children_kids (.inl hkd)] at hc
+      rw [children_kids (.inl hkind)]
+      exact removed_nonlist hnd hB hid (fun k' hk' => (hko (.inr (.inl rfl)) k' hk').1) c hc hin
+    · rw [children_kids (.inr (.inl hkd))] at hc
+      rw [children_kids (.inr (.inl hkind))]
+      exact removed_nonlist hnd hB hid (fun k' hk' => (hko (.inr (.inr rfl)) k' hk').1) c hc hin
+  | map o =>
+    have hko := fun hm => mapStep_ko1 n hk hm o hop next
+    unfold nodeStep at hin hkind hid hB hsame hko ⊢
+    cases hkd : n.kind <;> simp only [hkd] at hin hkind hid hB hsame hko ⊢ <;> try exact hsame rfl
+    · rw [children_kids (.inr (.inr (.inl hkd)))] at hc
+      rw [children_kids (.inr (.inr (.inl hkind)))]
+      exact removed_nonlist hnd hB hid (hko rfl) c hc hin
+    · rw [children_kids (.inr (.inr (.inr hkd)))] at hc
+      rw [children_kids (.inr (.inr (.inr hkind)))]
+      exact removed_nonlist hnd hB hid (hko rfl) c hc hin
 
 end Flatland.C08.Proofs
